@@ -106,24 +106,32 @@ def instrumented_engine():
     return yp, rec, calls
 
 
-def method_names(yp):
-    return [n for n in dir(yp) if not n.startswith('__') and callable(getattr(yp, n, None))]
+class MethodWatch:
+    """records every function of the engine module that is entered (profile hook: nothing in the
+    engine object is replaced, so what the engine finds when it looks at itself is unchanged)"""
+
+    def __init__(self):
+        self.calls = []
+
+    def _prof(self, frame, event, arg):
+        if event == 'call':
+            code = frame.f_code
+            if code.co_filename.endswith('engine.py') and (os_sep + 'yldprolog' + os_sep) in code.co_filename:
+                self.calls.append(code.co_qualname)
+
+    def __enter__(self):
+        import sys
+        sys.setprofile(self._prof)
+        return self.calls
+
+    def __exit__(self, *a):
+        import sys
+        sys.setprofile(None)
+        return False
 
 
-def watch_methods(yp):
-    """every method of the engine object is replaced (on the instance) by a recording wrapper"""
-    mcalls = []
-    for n in method_names(yp):
-        f = getattr(yp, n)
-
-        def counted(*a, _f=f, _n=n, **kw):
-            mcalls.append(_n)
-            return _f(*a, **kw)
-        try:
-            setattr(yp, n, counted)
-        except Exception:  # noqa: BLE001
-            pass
-    return mcalls
+import os as _os  # noqa: E402
+os_sep = _os.sep
 
 
 _internal = {}
@@ -135,13 +143,12 @@ def internal_methods(n, kind):
     key = (n, kind)
     if key not in _internal:
         yp, rec, calls = instrumented_engine()
-        entry = yp.query
-        mcalls = watch_methods(yp)
-        try:
-            for _ in entry('zz no such predicate', query_args(yp, kind, n)):
+        with MethodWatch() as mcalls:
+            try:
+                for _ in yp.query('zz no such predicate', query_args(yp, kind, n)):
+                    pass
+            except Exception:  # noqa: BLE001
                 pass
-        except Exception:  # noqa: BLE001
-            pass
         _internal[key] = set(mcalls)
     return _internal[key]
 
@@ -262,14 +269,13 @@ BUILTIN_PREDS = {'=', '\\=', 'findall', 'call', 'once', 'assertz', 'asserta', 'r
 
 def check_query(name, n, kind):
     allowed = internal_methods(n, kind)
+    mcalls = []
     yp, rec, calls = instrumented_engine()
-    entry = yp.query
-    mcalls = watch_methods(yp)
-    # a harmless loaded program, so that the context is not empty of user predicates
+    watch = MethodWatch()
     answers = 0
     try:
-        with StepBudget(100000):
-            q = entry(name, query_args(yp, kind, n))
+        with StepBudget(100000), watch as mcalls:
+            q = yp.query(name, query_args(yp, kind, n))
             for _ in q:
                 answers += 1
                 if answers > 3:
